@@ -49,6 +49,8 @@ def collect_atoms(test, subst=None, norm=default_norm, out=None):
         for v in test.values:
             collect_atoms(v, subst, norm, out)
         return out
+    if isinstance(test, ast.Constant):
+        return out
     k = atom_key(test, subst, norm)
     if k is None:
         raise AnalysisError("condition not atomic: %s" % canon(test))
@@ -78,8 +80,9 @@ class Walker:
     Compound statements other than If end the walk with AnalysisError unless
     `opaque` says they are irrelevant."""
 
-    def __init__(self, event, subst=None, norm=default_norm, loops="body"):
+    def __init__(self, event, subst=None, norm=default_norm, loops="body", update=None):
         self.event = event
+        self.update = update      # update(stmt, assign): a statement may change an atom's value
         self.subst = subst
         self.norm = norm
         self.loops = loops
@@ -128,6 +131,8 @@ class Walker:
             elif isinstance(st, (ast.Continue, ast.Break)):
                 return "loop"
             else:
+                if self.update is not None:
+                    self.update(st, assign)
                 e = self.event(st)
                 if e is not None:
                     events.append(e)
@@ -141,6 +146,6 @@ class Walker:
         for vals in itertools.product([False, True], repeat=len(atoms)):
             assign = dict(zip(atoms, vals))
             ev = []
-            self.walk(stmts, assign, ev)
+            self.walk(stmts, dict(assign), ev)
             rows[vals] = tuple(ev)
         return atoms, rows
